@@ -32,6 +32,8 @@ pub enum SetupStep {
     Setup,
     Insert(Res, u64),
     Remove(Res),
+    /// the world value is moved to a different address (a `World` is an ordinary movable value)
+    MoveWorld,
 }
 
 #[derive(Clone, Debug, Serialize, Deserialize)]
@@ -93,7 +95,7 @@ impl Prop for C13 {
         "C13"
     }
     fn rule(&self) -> &'static str {
-        "plans with batches nested 0..3 deep, thread-local systems and many static SystemData shapes (default-providing Read/Write, Option, ReadExpect/WriteExpect, a custom counting SetupHandler, derive struct) x a world in which a generated subset of the 32 resources pre-exists with generated values x a history of 1..3 setup calls interleaved with inserts / removes, then dispose; oracle: every setup call increments the setup counter of every system at any depth by exactly 1 and calls each custom handler once per member, afterwards every default-provided resource exists, every value that existed before the call is bit-identical, nothing else was created; dispose increments every system's dispose counter exactly once; non-trivial = >= 1 batch with >= 1 inner system and >= 1 pre-existing resource; distinct = hash of the case"
+        "plans with batches nested 0..3 deep, thread-local systems and many static SystemData shapes (default-providing Read/Write, Option, ReadExpect/WriteExpect, a custom counting SetupHandler, derive struct) x a world in which a generated subset of the 32 resources pre-exists with generated values x a history of 1..3 setup calls interleaved with inserts / removes and moves of the world value to another address, then dispose; oracle: every setup call increments the setup counter of every system at any depth by exactly 1 and calls each custom handler once per member, afterwards every default-provided resource exists, every value that existed before the call is bit-identical, nothing else was created; dispose increments every system's dispose counter exactly once; non-trivial = >= 1 batch with >= 1 inner system and >= 1 pre-existing resource; distinct = hash of the case"
     }
     fn gen(&self, src: &mut Src) -> C13Case {
         let plan = gen_plan(src, &self.cfg);
@@ -111,14 +113,18 @@ impl Prop for C13 {
         let mut steps = vec![SetupStep::Setup];
         let extra = src.pick(5);
         for _ in 0..extra {
-            match src.pick(3) {
+            match src.pick(4) {
                 0 => steps.push(SetupStep::Setup),
                 1 => steps.push(SetupStep::Insert(
                     Res::new(src.pick(res::NT), 0),
                     5000 + src.raw() as u64,
                 )),
-                _ => steps.push(SetupStep::Remove(Res::new(src.pick(res::NT), 0))),
+                2 => steps.push(SetupStep::Remove(Res::new(src.pick(res::NT), 0))),
+                _ => steps.push(SetupStep::MoveWorld),
             }
+        }
+        if src.chance(5, 16) {
+            steps.push(SetupStep::MoveWorld);
         }
         let via_trait = src.chance(6, 16);
         C13Case {
@@ -139,14 +145,22 @@ impl Prop for C13 {
         let flat = b.flat.clone();
         let prov = provided(&flat);
         let per_setup_handler = handler_calls_per_setup(&flat);
-        let mut world = World::empty();
+        let mut world = Box::new(World::empty());
         for (r, v) in &case.preexisting {
             res::insert(&mut world, *r, *v);
         }
         b.ctx.reset_counters();
         let mut n_setup = 0u32;
+        let mut moved_after_setup = false;
         for step in &case.steps {
             match step {
+                SetupStep::MoveWorld => {
+                    // the new allocation exists before the old one is freed: the address really changes
+                    let mut nb = Box::new(World::empty());
+                    std::mem::swap(&mut *nb, &mut *world);
+                    world = nb;
+                    moved_after_setup = n_setup > 0;
+                }
                 SetupStep::Insert(r, v) => res::insert(&mut world, *r, *v),
                 SetupStep::Remove(r) => {
                     res::remove(&mut world, *r);
@@ -167,6 +181,7 @@ impl Prop for C13 {
                         return Err(Fail::new(format!("setup panicked: {}", panic_msg(&p))));
                     }
                     n_setup += 1;
+                    moved_after_setup = false;
                     let h1 = HANDLER_CALLS.with(|c| c.get());
                     for s in &flat.sys {
                         if s.is_batch {
@@ -243,6 +258,9 @@ impl Prop for C13 {
         }
         if case.via_trait {
             st.class("through_RunNow_trait");
+        }
+        if moved_after_setup {
+            st.class("world_moved_between_setup_and_dispose");
         }
         for s in &flat.sys {
             if s.is_batch {
@@ -347,12 +365,29 @@ impl C14 {
         strategy: Option<Strategy>,
         label: &str,
     ) -> Result<(), Fail> {
+        self.one_fault_at(b, armed, point, 0, entry, strategy, label)
+    }
+
+    /// `run_no` > 0: the armed system panics in its `run_no`-th run of the dispatch (a later inner
+    /// dispatch of an enclosing batch), 0: in its first
+    #[allow(clippy::too_many_arguments)]
+    fn one_fault_at(
+        &self,
+        b: &mut Built,
+        armed: &[usize],
+        point: u8,
+        run_no: u32,
+        entry: Entry,
+        strategy: Option<Strategy>,
+        label: &str,
+    ) -> Result<(), Fail> {
         let flat = b.flat.clone();
         let world = fresh_world();
         b.ctx.reset_counters();
         b.ctx.reset_states();
         for &a in armed {
             b.ctx.fault[a].store(point, SeqCst);
+            b.ctx.fault_run[a].store(run_no, SeqCst);
         }
         let strategy = if C14_DEGRADED.with(|d| d.get()) {
             None
@@ -367,11 +402,13 @@ impl C14 {
         }
         for &a in armed {
             b.ctx.fault[a].store(FAULT_NONE, SeqCst);
+            b.ctx.fault_run[a].store(0, SeqCst);
         }
         let where_ = format!(
-            "[armed {:?} at point {} entry {:?} schedule {}]",
+            "[armed {:?} at point {}{} entry {:?} schedule {}]",
             armed.iter().map(|a| flat.sys[*a].sid()).collect::<Vec<_>>(),
             point,
+            if run_no > 0 { format!(" of its run number {}", run_no) } else { String::new() },
             entry,
             label
         );
@@ -427,7 +464,7 @@ impl C14 {
                 )));
             }
         }
-        if armed.len() == 1 {
+        if armed.len() == 1 && run_no <= 1 {
             for y in must_not_run(&flat, armed[0]) {
                 if runs[y] > 0 {
                     return Err(Fail::new(format!(
@@ -485,11 +522,12 @@ impl Prop for C14 {
         "C14"
     }
     fn rule(&self) -> &'static str {
-        "small generated plans (<= 10 ops, batches, thread-locals); ENUMERATED per plan: every system (each position of each group and stage, thread-local, controller, inside batches) as the panicking one x fault point {before its fetch, inside run, after its release} x {dispatch (parallel), dispatch_seq + thread-local} x sibling phase forced by the conductor {panicking system first = siblings before their fetch, maximal overlap = siblings inside run, panicking system last = siblings released}; pairs variant: two systems of one stage armed at once; oracle: catch_unwind(dispatch) is Err with the HarnessFault payload of an armed system, no counter above 1 x enclosing dispatch counts, no transitive dependent ran, afterwards every cell probes free and the next unarmed dispatch runs everything exactly once; evaluations = fault points; non-trivial = plan with >= 2 groups in a stage or a dependency edge; distinct = plan hash"
+        "small generated plans (<= 10 ops, batches, thread-locals); ENUMERATED per plan: every system (each position of each group and stage, thread-local, controller, inside batches) as the panicking one x fault point {before its fetch, inside run, after its release} x {dispatch (parallel), dispatch_seq + thread-local} x (for systems inside batches that dispatch k >= 2 times, incl. MultiDispatcher batches: also the fault in the last and the second of its runs) x sibling phase forced by the conductor {panicking system first = siblings before their fetch, maximal overlap = siblings inside run, panicking system last = siblings released}; pairs variant: two systems of one stage armed at once; oracle: catch_unwind(dispatch) is Err with the HarnessFault payload of an armed system, no counter above 1 x enclosing dispatch counts, no transitive dependent ran, afterwards every cell probes free and the next unarmed dispatch runs everything exactly once; evaluations = fault points; non-trivial = plan with >= 2 groups in a stage or a dependency edge; distinct = plan hash"
     }
     fn gen(&self, src: &mut Src) -> C14Case {
         let threads = if self.cfg.max_ops > 12 {
-            16
+            // wide stages: pools smaller and larger than the number of groups
+            [2u8, 3, 4, 16][src.pick(4)]
         } else {
             [2u8, 4, 8][src.pick(3)]
         };
@@ -508,6 +546,7 @@ impl Prop for C14 {
         let controllable = conc <= threads && !crate::p_sched::has_multi(&b);
         let n = flat.sys.len();
         let mut points = 0u64;
+        let mut later_points = 0u64;
         C14_DEGRADED.with(|d| d.set(false));
         if self.pairs {
             // two systems of one stage, different groups, at once
@@ -565,9 +604,25 @@ impl Prop for C14 {
                         self.one_fault(&mut b, &[s], point, Entry::Dispatch, strat, label)?;
                         points += 1;
                     }
+                    // inside a batch that dispatches several times: also in a later inner dispatch
+                    let per_dispatch = expected_runs(&flat, 1, 1)[s];
+                    if per_dispatch >= 2 {
+                        let mut ks = vec![per_dispatch];
+                        if per_dispatch >= 3 {
+                            ks.push(2);
+                        }
+                        for k in ks {
+                            for entry in [Entry::SeqTl, Entry::Dispatch] {
+                                self.one_fault_at(&mut b, &[s], point, k, entry, None, "free-run, later inner dispatch")?;
+                                points += 1;
+                                later_points += 1;
+                            }
+                        }
+                    }
                 }
             }
         }
+        st.class_n("fault_points_in_a_later_inner_dispatch", later_points);
         st.eval(points.saturating_sub(1));
         st.class_n("fault_points", points);
         let dep_in_group = b.layouts.by_bid.values().any(|l| {
@@ -579,6 +634,13 @@ impl Prop for C14 {
         });
         if dep_in_group {
             st.class("plans_with_dependent_behind_its_dependency_in_one_group");
+        }
+        let widest = b.layouts.by_bid.values().flat_map(|l| l.stages.iter().map(|s| s.len())).max().unwrap_or(0);
+        if widest > threads {
+            st.class("plans_with_more_groups_in_a_stage_than_pool_threads");
+        }
+        if widest >= 10 && dep_in_group {
+            st.class("plans_with_10_or_more_groups_in_a_stage_and_a_dependent_in_group");
         }
         if controllable {
             st.class("plans_schedule_controlled");
@@ -1044,6 +1106,75 @@ pub struct C12PanicCase {
     /// selects the thread-local system that panics in the first dispatch
     pub which: u16,
     pub point: u8,
+    /// use the asynchronous dispatcher: the thread-local system panics inside wait()
+    #[serde(default)]
+    pub asynchronous: bool,
+}
+
+impl C12AfterPanic {
+    fn check_async(&self, case: &C12PanicCase, lane: usize, st: &mut Stats) -> Result<(), Fail> {
+        let tp = pool(lane, 2);
+        let flat = Arc::new(compile(&case.plan));
+        let tls = flat.builders[0].tls.clone();
+        if tls.is_empty() {
+            st.class("no_thread_local_skipped");
+            return Ok(());
+        }
+        let ctx = Ctx::new(flat.clone());
+        let builder = build_builder(&case.plan, &flat, 0, &ctx, Some(tp), &BuildOpts::default())
+            .map_err(|e| Fail::new(format!("builder panicked: {}", e.msg)))?;
+        let mut ad = catch_unwind(AssertUnwindSafe(|| builder.build_async(fresh_world())))
+            .map_err(|p| Fail::new(format!("build_async panicked: {}", panic_msg(&p))))?;
+        let victim = tls[(case.which as usize * tls.len()) >> 16];
+        let caller = thread_no();
+        ctx.set_phase(PHASE_RUN);
+        ctx.fault[victim].store(case.point.clamp(1, 3), SeqCst);
+        ad.dispatch();
+        let r = catch_unwind(AssertUnwindSafe(|| ad.wait()));
+        ctx.fault[victim].store(FAULT_NONE, SeqCst);
+        let result: Result<(), Fail> = (|| {
+            if r.is_ok() {
+                return Err(Fail::new(
+                    "a thread-local system panicked inside wait() but wait() returned normally",
+                ));
+            }
+            let _ = ctx.take_log();
+            for round in 0..2 {
+                ctx.reset_counters();
+                ad.dispatch();
+                let r = catch_unwind(AssertUnwindSafe(|| ad.wait()));
+                if let Err(p) = &r {
+                    return Err(Fail::new(format!(
+                        "wait() {} after the caught panic panicked: {}",
+                        round,
+                        describe_panic(p)
+                    )));
+                }
+                let log = ctx.take_log();
+                let mut wins = windows(&flat, &log);
+                close_multi_windows(&flat, &mut wins);
+                check_thread_local(&flat, &wins, caller, 1).map_err(|f| Fail {
+                    msg: format!("asynchronous dispatcher, after a caught thread-local panic in wait(): {}", f.msg),
+                    key: f.key,
+                })?;
+                check_counts(&flat, &ctx.runs(), &expected_runs(&flat, 1, 1)).map_err(|f| {
+                    Fail::new(format!(
+                        "asynchronous dispatcher, after a caught thread-local panic in wait(): {}",
+                        f.msg
+                    ))
+                })?;
+            }
+            Ok(())
+        })();
+        let _ = catch_unwind(AssertUnwindSafe(|| ad.wait_without_tl()));
+        ctx.set_phase(PHASE_BUILD);
+        result?;
+        st.class("asynchronous");
+        if tls.len() >= 2 {
+            st.nontrivial(case, || json!({"thread_local": tls.len(), "asynchronous": true}));
+        }
+        Ok(())
+    }
 }
 
 impl Prop for C12AfterPanic {
@@ -1055,18 +1186,23 @@ impl Prop for C12AfterPanic {
         "C12"
     }
     fn rule(&self) -> &'static str {
-        "plans with >= 1 top-level thread-local system; one generated thread-local system panics (before its fetch / inside run / after its release) in a first dispatch whose panic is caught; oracle on the following dispatches of the same dispatcher: every thread-local system still runs exactly once per dispatch, on the dispatching thread, after all ordinary systems, in registration order, and try_into_sendable still refuses; non-trivial = >= 2 thread-local systems; distinct = case hash"
+        "plans with >= 1 top-level thread-local system; one generated thread-local system panics (before its fetch / inside run / after its release) in a first dispatch (or, for 5/16 of the cases, inside wait() of the asynchronous dispatcher built from the same registrations) whose panic is caught; oracle on the following dispatches (dispatch + wait) of the same dispatcher: every thread-local system still runs exactly once per dispatch, on the dispatching thread, after all ordinary systems, in registration order, and try_into_sendable still refuses; non-trivial = >= 2 thread-local systems; distinct = case hash"
     }
     fn gen(&self, src: &mut Src) -> C12PanicCase {
         let which = src.raw();
         let point = 1 + src.pick(3) as u8;
+        let asynchronous = src.chance(5, 16);
         C12PanicCase {
             plan: gen_plan(src, &self.cfg),
             which,
             point,
+            asynchronous,
         }
     }
     fn check(&self, case: &C12PanicCase, lane: usize, st: &mut Stats) -> Result<(), Fail> {
+        if case.asynchronous {
+            return self.check_async(case, lane, st);
+        }
         let mut b = build_plan(&case.plan, pool(lane, 2), &BuildOpts::default())
             .map_err(|e| Fail::keyed("build-or-identify", e))?;
         let flat = b.flat.clone();
@@ -1136,6 +1272,10 @@ pub struct C04CallsCase {
     pub calls: Vec<Entry>,
     pub threads: u8,
     pub jitter: Vec<u16>,
+    /// (call index, system selector, fault point): that call runs with one system armed to panic;
+    /// the panic is caught and the history goes on with the same dispatcher
+    #[serde(default)]
+    pub faults: Vec<(u8, u16, u8)>,
 }
 
 impl Prop for C04Calls {
@@ -1147,7 +1287,7 @@ impl Prop for C04Calls {
         "C04"
     }
     fn rule(&self) -> &'static str {
-        "plans (nested batches with custom / MultiDispatcher controllers, thread-local systems incl. inside batches) x a generated sequence of 1..8 calls drawn from dispatch / dispatch_par / dispatch_seq / dispatch_thread_local / RunNow::run_now on ONE dispatcher x pool size 1..16 x per-system delays; oracle after every call: counter of every ordinary system == number of calls so far that run ordinary systems, every top-level thread-local counter == number of dispatch + dispatch_thread_local calls, inner systems == enclosing batch runs x its dispatch count, nothing is left borrowed; non-trivial = >= 3 calls of >= 2 different kinds on a plan with >= 2 stages or a batch; distinct = case hash"
+        "plans (nested batches with custom / MultiDispatcher controllers, thread-local systems incl. inside batches) x a generated sequence of 1..8 calls drawn from dispatch / dispatch_par / dispatch_seq / dispatch_thread_local / RunNow::run_now on ONE dispatcher x pool size 1..16 x per-system delays; oracle after every call: counter of every ordinary system == number of calls so far that run ordinary systems, every top-level thread-local counter == number of dispatch + dispatch_thread_local calls, inner systems == enclosing batch runs x its dispatch count, nothing is left borrowed; 5/16 of the histories arm one or two calls with a system that panics (caught): counting restarts after such a call and every later call must again run everything exactly once; non-trivial = >= 3 calls of >= 2 different kinds on a plan with >= 2 stages or a batch; distinct = case hash"
     }
     fn gen(&self, src: &mut Src) -> C04CallsCase {
         let threads = [1u8, 2, 3, 4, 8, 16][src.pick(6)];
@@ -1165,11 +1305,18 @@ impl Prop for C04Calls {
             .collect();
         let plan = gen_plan(src, &self.cfg);
         let jitter = (0..40).map(|_| src.raw()).collect();
+        let mut faults = vec![];
+        if src.chance(5, 16) {
+            for _ in 0..1 + src.pick(2) {
+                faults.push((src.pick(n) as u8, src.raw(), 1 + src.pick(3) as u8));
+            }
+        }
         C04CallsCase {
             plan,
             calls,
             threads,
             jitter,
+            faults,
         }
     }
     fn check(&self, case: &C04CallsCase, lane: usize, st: &mut Stats) -> Result<(), Fail> {
@@ -1184,13 +1331,46 @@ impl Prop for C04Calls {
         let world = fresh_world();
         b.ctx.reset_counters();
         let (mut ord, mut tl) = (0u32, 0u32);
+        let mut recovered = 0;
         for (k, entry) in case.calls.iter().enumerate() {
+            let armed: Vec<usize> = case
+                .faults
+                .iter()
+                .filter(|f| f.0 as usize == k && !flat.sys.is_empty())
+                .map(|f| (f.1 as usize * flat.sys.len()) >> 16)
+                .collect();
+            if !armed.is_empty() {
+                for (a, f) in armed.iter().zip(case.faults.iter().filter(|f| f.0 as usize == k)) {
+                    b.ctx.fault[*a].store(f.2.clamp(1, 3), SeqCst);
+                }
+                let out = run_call(&mut b, &world, *entry, None, Duration::from_millis(3000));
+                for a in &armed {
+                    b.ctx.fault[*a].store(FAULT_NONE, SeqCst);
+                }
+                if let Some(p) = &out.panic {
+                    if p.downcast_ref::<HarnessFault>().is_none() {
+                        return Err(Fail::keyed(
+                            "panic",
+                            format!("call {} ({:?}) with an armed system panicked with a foreign payload: {}", k, entry, describe_panic(p)),
+                        ));
+                    }
+                    // a dispatch that panicked is not a completed dispatch: counting restarts
+                    check_all_free(&world)?;
+                    b.ctx.reset_counters();
+                    ord = 0;
+                    tl = 0;
+                    recovered += 1;
+                    continue;
+                }
+                // the armed system was not reached by this entry point: an ordinary call
+            } else {
             let out = run_call(&mut b, &world, *entry, None, Duration::from_millis(3000));
             if let Some(p) = &out.panic {
                 return Err(Fail::keyed(
                     "panic",
                     format!("call {} ({:?}) panicked: {}", k, entry, describe_panic(p)),
                 ));
+            }
             }
             if entry.runs_ordinary() {
                 ord += 1;
@@ -1204,8 +1384,11 @@ impl Prop for C04Calls {
         }
         let kinds: BTreeSet<String> = case.calls.iter().map(|e| format!("{:?}", e)).collect();
         let interesting = b.layouts.by_bid[&0].stages.len() >= 2 || flat.sys.iter().any(|s| s.is_batch);
+        if recovered > 0 {
+            st.class("histories_with_a_caught_panic");
+        }
         if case.calls.len() >= 3 && kinds.len() >= 2 && interesting {
-            st.nontrivial(case, || json!({"calls": case.calls.len()}));
+            st.nontrivial(case, || json!({"calls": case.calls.len(), "caught_panics": recovered}));
         }
         Ok(())
     }
@@ -1218,11 +1401,16 @@ impl Prop for C04Calls {
             })
             .collect();
         for i in (0..case.calls.len()).rev() {
-            if case.calls.len() > 1 {
+            if case.calls.len() > 1 && !case.faults.iter().any(|f| f.0 as usize >= i) {
                 let mut c = case.clone();
                 c.calls.remove(i);
                 out.push(c);
             }
+        }
+        for i in 0..case.faults.len() {
+            let mut c = case.clone();
+            c.faults.remove(i);
+            out.push(c);
         }
         out
     }
